@@ -868,6 +868,8 @@ class Interp:
             return z3.SignExt(db - sb, v) if ss else z3.ZeroExt(db - sb, v)
         if kind == 'Transmute' or kind == 'PtrToPtr':
             if isinstance(v, BoxV):
+                if isinstance(v.inner, SlotV):
+                    return MRef(v.inner.cell, ())
                 if ty.startswith('*const') or ty.startswith('*mut'):
                     return mk_sref(v.inner)
                 return v
@@ -1503,6 +1505,8 @@ def set_mpath(I, v, path, newv):
             fs[i] = set_mpath(I, fs[i], path[1:], newv)
             return Closure(v.cid, fs)
         if v is UNINIT or v is MOVED:
+            if all(q[0] == 'field' for q in path):
+                return newv          # MaybeUninit / ManuallyDrop / MaybeDangling wrappers are transparent
             raise EngineError('field write into uninitialised aggregate')
         raise EngineError('field write on %s' % type(v).__name__)
     if k == 'downcast':
